@@ -77,7 +77,7 @@ theorem PushOk.trans {objs : List Obj} {D : Nat → Prop} {a b c : List (List Na
 
 theorem PushOk.append {objs : List Obj} {D : Nat → Prop} (cells : List (List Nat)) {x : Nat} {o : Obj} (s : Nat)
     (hx : D x) (ho : objs[x]? = some o) : PushOk objs D cells (appendCell cells o.cell s) :=
-  ⟨appendCell_length _ _ _, fun c hc => appendCell_ne _ _ _ _ (hc x o hx ho)⟩
+  ⟨appendCell_length _ _ _, fun _ hc => appendCell_ne _ _ _ _ (hc x o hx ho)⟩
 
 theorem pushList_frame (objs : List Obj) (D : Nat → Prop)
     (rec : List (List Nat) → Nat → Option (List (List Nat)))
